@@ -1903,6 +1903,29 @@ class Exec:
         return self.comprehension(node, st, "tuple")
 
     def comprehension(self, node, st, kind):
+        if len(node.generators) == 2 and not node.generators[0].ifs:
+            # `f(c) for dim in xs for c in dim` with xs of fixed length: one inner comprehension per element, joined
+            g0 = node.generators[0]
+            outer = self.iter_static(g0.iter, st)
+            if outer is None:
+                raise Unsupported("nested comprehension over a symbolic outer sequence")
+            inner = ast.copy_location(type(node)(elt=node.elt, generators=node.generators[1:]), node) \
+                if not isinstance(node, ast.DictComp) else None
+            if inner is None:
+                raise Unsupported("nested dict comprehension")
+            parts = []
+            for x in outer:
+                s2 = st.copy()
+                base_len = len(s2.pc)
+                self.assign(g0.target, x, s2, node)
+                parts.append(self.comprehension(inner, s2, kind))
+                st.pc.extend(s2.pc[base_len:])
+            if all(isinstance(p_, TupV) for p_ in parts):
+                return TupV([i for p_ in parts for i in p_.items], kind)
+            t = S.c_empty
+            for p_ in parts:
+                t = S.f_concat(t, self.to_seq(p_))
+            return SeqV(t, kind)
         if len(node.generators) != 1:
             raise Unsupported("nested comprehension")
         g = node.generators[0]
